@@ -177,6 +177,65 @@ func dispatchArm(j *ssa.BasicBlock, i int, p *ssa.BasicBlock) (int, bool) {
 				}
 			}
 		case *ssa.BinOp:
+			if x.Block() == j && (x.Op == token.LSS || x.Op == token.LEQ || x.Op == token.GTR || x.Op == token.GEQ) && (isJPhi(x.X) || isJPhi(x.Y)) {
+				// ordered comparison of the merged value with a constant ("index or -1"): decided when the incoming
+				// value is a constant, or has a lower bound by construction (a range index, a length) that settles it
+				a, b := subst(x.X), subst(x.Y)
+				op := x.Op
+				kb, okb := constInt(b)
+				if !okb {
+					// constant on the left: mirror
+					if ka, oka := constInt(a); oka {
+						a, kb, okb = b, ka, true
+						switch op {
+						case token.LSS:
+							op = token.GTR
+						case token.LEQ:
+							op = token.GEQ
+						case token.GTR:
+							op = token.LSS
+						case token.GEQ:
+							op = token.LEQ
+						}
+					}
+				}
+				if !okb {
+					return false, false
+				}
+				if ka, oka := constInt(a); oka {
+					switch op {
+					case token.LSS:
+						return ka < kb, true
+					case token.LEQ:
+						return ka <= kb, true
+					case token.GTR:
+						return ka > kb, true
+					default:
+						return ka >= kb, true
+					}
+				}
+				if lb, okL := lowerBoundOf(a, 0); okL {
+					switch op {
+					case token.GEQ:
+						if lb >= kb {
+							return true, true
+						}
+					case token.GTR:
+						if lb > kb {
+							return true, true
+						}
+					case token.LSS:
+						if lb >= kb {
+							return false, true
+						}
+					case token.LEQ:
+						if lb > kb {
+							return false, true
+						}
+					}
+				}
+				return false, false
+			}
 			if x.Block() != j || (x.Op != token.EQL && x.Op != token.NEQ) {
 				return false, false
 			}
@@ -219,6 +278,76 @@ func dispatchArm(j *ssa.BasicBlock, i int, p *ssa.BasicBlock) (int, bool) {
 		return 0, true
 	}
 	return 1, true
+}
+
+// lowerBoundOf: a lower bound that an integer value has by construction: constants, lengths, unsigned
+// conversions, sums with constants, and counters phi(c0, phi+k) with k >= 0 (monotone: never below c0).
+func lowerBoundOf(v ssa.Value, depth int) (int64, bool) {
+	if depth > 6 {
+		return 0, false
+	}
+	if c, ok := constInt(v); ok {
+		return c, true
+	}
+	switch x := v.(type) {
+	case *ssa.Call:
+		if isBuiltinCall(x, "len") || isBuiltinCall(x, "cap") {
+			return 0, true
+		}
+	case *ssa.Convert:
+		if _, signed, ok := intWidth(x.X.Type()); ok && !signed {
+			if _, _, okT := intWidth(x.Type()); okT {
+				// widening of an unsigned value (narrowing to a signed type of the same width could go negative)
+				wf, _, _ := intWidth(x.X.Type())
+				wt, st, _ := intWidth(x.Type())
+				if wt > wf || !st {
+					return 0, true
+				}
+			}
+		}
+		if _, _, ok := intWidth(x.X.Type()); ok {
+			wf, _, _ := intWidth(x.X.Type())
+			wt, _, _ := intWidth(x.Type())
+			if wt >= wf {
+				return lowerBoundOf(x.X, depth+1)
+			}
+		}
+	case *ssa.BinOp:
+		if x.Op == token.ADD {
+			if k, ok := constInt(x.Y); ok {
+				if lb, okL := lowerBoundOf(x.X, depth+1); okL {
+					return lb + k, true
+				}
+			}
+			if k, ok := constInt(x.X); ok {
+				if lb, okL := lowerBoundOf(x.Y, depth+1); okL {
+					return lb + k, true
+				}
+			}
+		}
+	case *ssa.Phi:
+		have := false
+		var lb int64
+		for _, e := range x.Edges {
+			if b, ok := e.(*ssa.BinOp); ok && b.Op == token.ADD && b.X == ssa.Value(x) {
+				if k, isC := constInt(b.Y); isC && k >= 0 {
+					continue // the counter's own increment
+				}
+			}
+			if e == ssa.Value(x) {
+				continue
+			}
+			l, ok := lowerBoundOf(e, depth+1)
+			if !ok {
+				return 0, false
+			}
+			if !have || l < lb {
+				lb, have = l, true
+			}
+		}
+		return lb, have
+	}
+	return 0, false
 }
 
 // nilnessAt: +1 nil, -1 non-nil, 0 unknown, for value v at the end of block p.
